@@ -12,7 +12,7 @@ import (
 	"ariga.io/atlas/sql/sqlite"
 )
 
-func q(s string) string { return "`" + s + "`" }
+func q(s string) string { return "`" + strings.ReplaceAll(s, "`", "``") + "`" }
 
 func qs(l []string) string {
 	o := make([]string, len(l))
